@@ -59,6 +59,12 @@ func init() {
 		Trusted: trust("A-SORT", "A-PS")})
 	add(&propSpec{ID: "C18", Level: "proof", Funcs: append([]string{"bexpr.Evaluator.Evaluate", "bexpr.getValue"}, optFuncs...),
 		Trusted: trust("A-PS", "A-HOOK")})
+	add(&propSpec{ID: "C12", Level: "proof", Funcs: []string{"bexpr.doMatchMatches", "bexpr.compileRegexps"},
+		Extras:  []string{"frame:write:bexpr.Evaluator.Evaluate,bexpr.Filter.Execute,bexpr.CreateEvaluator,bexpr.CreateFilter,bexpr.Evaluator.Expression", "frame:no-concurrency"},
+		Trusted: trust("A-DRF", "A-REGEXP", "A-PS", "A-HOOK", "A-EXT-PURE")})
+	add(&propSpec{ID: "C13", Level: "proof", Funcs: []string{"bexpr.doMatchMatches", "bexpr.Evaluator.Expression", "bexpr.Evaluator.Evaluate", "bexpr.Filter.Execute"},
+		Extras:  []string{"frame:write:bexpr.Evaluator.Evaluate,bexpr.Filter.Execute,bexpr.Evaluator.Expression"},
+		Trusted: trust("A-PS", "A-HOOK", "A-EXT-PURE", "A-REGEXP")})
 	add(&propSpec{ID: "C17", Level: "proof", Funcs: []string{"bexpr.Filter.Execute"}, Trusted: trust("A-PS")})
 	add(&propSpec{ID: "C09", Level: "proof", Funcs: evalChain,
 		Trusted: trust("A-JSON", "A-REGEXP", "A-STRINGS", "A-PS", "A-HOOK", "A-SORT", "A-STACK")})
